@@ -90,6 +90,9 @@ V07(e) ==
     \*  visited are not orthonormal -- so the comparison starts after it)
     ELSE IF /\ PrefixStable(c) /\ prev.ev = "Prefix" /\ prev.k = e.k - 1 /\ IsInt(prev.true) /\ prev.cond <= CondMax
             /\ (cur.cfg.raw_init => prev.k >= 1)
+            \* PARAFAC2 with non-negative modes starts from an UNPROJECTED svd/random start (known finding F-10a): the first sweep
+            \* moves an infeasible point onto the constraint set and may raise the error; the comparison starts after it
+            /\ ((cur.cfg.alg = "parafac2" /\ cur.cfg.nn_kind # "none") => prev.k >= 1)
             /\ e.true > prev.true + MonoTol
          THEN "ObjectiveIncreasedBySweep"
     \* a REPORTED value represents the true error only up to ErrTol (the norm shortcut; C06 accepts that much), so the
